@@ -455,6 +455,10 @@ func classifyDump(stderr string) (kind, sig string) {
 			continue
 		}
 		total++
+		if inRuntimeWorldStop(ls[1:]) {
+			live = append(live, "runtime-stop-the-world@"+topRepo)
+			continue
+		}
 		switch state {
 		case "semacquire", "sync.Mutex.Lock", "sync.RWMutex.Lock", "sync.RWMutex.RLock", "sync.WaitGroup.Wait", "chan send", "chan receive", "select", "sync.Cond.Wait", "select (no cases)", "chan receive (nil chan)", "chan send (nil chan)":
 			if topRepo != "" {
